@@ -87,6 +87,25 @@ func c18One(c *Ctx, idx int, local map[string]int64) {
 		cond = &tcNode{op: "OR", l: tc.nonTimeTree(1), r: tc.nonTimeTree(1)}
 		nt = 0
 		shape = "top-level-or"
+	case rg.P(0.06):
+		// a condition shaped like what SetTimeRange itself leaves behind - a
+		// parenthesised group, then the two bounds of a window as RFC3339
+		// strings - except that the group holds time bounds of its own
+		rfcLeaf := func(op string, inst int64) *tcNode {
+			return &tcNode{op: "time", instant: inst, timeOp: op, text: "time " + op + " '" + time.Unix(0, inst).UTC().Format(time.RFC3339Nano) + "'"}
+		}
+		var group *tcNode
+		switch rg.Intn(3) {
+		case 0:
+			group = &tcNode{op: "AND", l: tc.pred(), r: tc.timeLeaf()}
+		case 1:
+			group = &tcNode{op: "AND", l: tc.timeLeaf(), r: tc.pred()}
+		default:
+			group = &tcNode{op: "AND", l: &tcNode{op: "AND", l: tc.pred(), r: tc.timeLeaf()}, r: tc.pred()}
+		}
+		lo := int64(946684800000000000) + int64(rg.Intn(400))*3600000000000
+		cond = &tcNode{op: "AND", l: &tcNode{op: "AND", l: &tcNode{op: "()", l: group}, r: rfcLeaf(">=", lo)}, r: rfcLeaf("<", lo+int64(rg.Range(1, 500))*3600000000000)}
+		shape = "own-output-shape-with-inner-bound"
 	default:
 		cond = tc.condition(nt, no)
 	}
@@ -129,7 +148,7 @@ func c18One(c *Ctx, idx int, local map[string]int64) {
 		var serr error
 		// the window's instants, carried by time values in any location (also
 		// ones whose offset has seconds, as local mean time has)
-		wloc := []*time.Location{time.UTC, time.UTC, time.FixedZone("LMT", -(4*3600 + 56*60 + 2)), time.FixedZone("", 44*60 + 30), c18NY, time.FixedZone("XST", 5*3600 + 1800)}[(idx+k)%6]
+		wloc := []*time.Location{time.UTC, time.UTC, time.FixedZone("LMT", -(4*3600 + 56*60 + 2)), time.FixedZone("", 44*60+30), c18NY, time.FixedZone("XST", 5*3600+1800)}[(idx+k)%6]
 		if k > 0 && rg.P(0.25) {
 			// between two windows the caller edits a predicate in place; the next
 			// window must be applied to the statement as it is now, as it would be
